@@ -36,8 +36,13 @@ pub fn parse_str_literal(meta: &Meta) -> crate::Result<Expr> {
         Meta::Path(_) => Err(Error::unsupported_format("path").with_span(meta)),
         Meta::List(_) => Err(Error::unsupported_format("list").with_span(meta)),
         Meta::NameValue(nv) => {
-            if let Expr::Lit(expr_lit) = &nv.value {
-                Expr::from_value(&expr_lit.lit)
+            // Only a string literal is parsed; every other literal is already the expression.
+            if let Expr::Lit(syn::ExprLit {
+                lit: lit @ syn::Lit::Str(_),
+                ..
+            }) = &nv.value
+            {
+                Expr::from_value(lit)
             } else {
                 Ok(nv.value.clone())
             }
